@@ -478,8 +478,12 @@ pub fn run_c18(args: &[String]) {
         let st = std::process::Command::new("sh").arg("-c").arg(&cmdline).stderr(std::process::Stdio::null()).status().expect("spawn worker");
         let done: u64 = std::fs::read_to_string(&prog).ok().and_then(|s| s.trim().parse().ok()).unwrap_or(start);
         if st.success() { break; }
-        // input number `done` killed the worker
+        // input number `done` killed the worker (cut off a partial last line first)
         use std::io::Write;
+        if let Ok(bytes) = std::fs::read(&out_path) {
+            let keep = bytes.iter().rposition(|b| *b == b'\n').map(|p| p + 1).unwrap_or(0);
+            if keep != bytes.len() { let _ = std::fs::write(&out_path, &bytes[..keep]); }
+        }
         let mut f = std::fs::OpenOptions::new().append(true).create(true).open(&out_path).unwrap();
         writeln!(f, "{}", json!({"ev":"Parse","id":format!("i{done}"),"outcome":"abort","loc":format!("{st}"),"msg":"worker process died","exempt_op":"","ops":[],"sys":{},"text":[],"fault_op":"","fault_line":"","at":""})).unwrap();
         aborts += 1;
